@@ -282,6 +282,46 @@ class Run:
         return n
 
     # --- U3: validate a trace recorded from the real crate
+    def _validate_sliced(self, stage, trace_path, nrecs, nshards, module, cfg, env, workers, timeout, heap, drop_slow):
+        per = (nrecs + nshards - 1) // nshards
+        r = TlcResult()
+        r.ok = True
+        unjudged = 0
+        with open(trace_path) as f:
+            lines = [ln for ln in f if ln.strip()]
+        for k in range(nshards):
+            chunk = lines[k * per:(k + 1) * per]
+            if not chunk:
+                continue
+            spath = "%s.shard%d" % (trace_path, k)
+            with open(spath, "w") as f:
+                f.writelines(chunk)
+            e = {"VH_TRACE": spath}
+            if env:
+                e.update(env)
+            rk = run_tlc(module, cfg, env=e, workers=workers, timeout=timeout, heap=heap,
+                         metadir=os.path.join(self.workdir, "md-%s-%d" % (stage, k)))
+            os.remove(spath)
+            r.cmd = rk.cmd
+            r.wall += rk.wall
+            if not rk.ok and drop_slow and rk.error.startswith("timeout"):
+                unjudged += len(chunk)
+                log("[tlc] %s: records %d..%d left unjudged (slice did not finish in %ds)" %
+                    (stage, k * per + 1, k * per + len(chunk), timeout))
+                continue
+            r.distinct += rk.distinct
+            r.generated += rk.generated
+            r.viols += [(idx + k * per, names) for idx, names in rk.viols]
+            if not rk.ok:
+                r.ok = False
+                r.error = rk.error
+                break
+        self.cmds.append("VH_TRACE=<%d slices of %s> %s" % (nshards, trace_path, r.cmd))
+        if unjudged > max(per, nrecs // 20):
+            r.ok = False
+            r.error = "timeout: %d of %d records could not be judged even in slices" % (unjudged, nrecs)
+        return r, unjudged
+
     def validate(self, stage, trace_path, module, cfg, prefixes, workers=8, timeout=900, heap="6g", env=None,
                  nontrivial=None, need=None, expect_distinct=None, note_prefixes=()):
         """prefixes: obligation-name prefixes that belong to this property (e.g. ["C20:"]).
@@ -297,6 +337,7 @@ class Run:
         # large traces are validated in shards (bounded TLC heap); indices are mapped back to the whole trace
         size = os.path.getsize(trace_path)
         nshards = max(1, min(64, int(size / 12e6) + 1))
+        unjudged = 0
         if nshards == 1:
             e = {"VH_TRACE": trace_path}
             if env:
@@ -304,46 +345,33 @@ class Run:
             r = run_tlc(module, cfg, env=e, workers=workers, timeout=timeout, heap=heap,
                         metadir=os.path.join(self.workdir, "md-" + stage))
             self.cmds.append("VH_TRACE=%s %s" % (trace_path, r.cmd))
+            if not r.ok and r.error.startswith("timeout"):
+                # a few records can be pathologically expensive for the specification's executable definitions
+                # (a seed-dependent random term): judge the trace in 40 slices with a short limit each and leave
+                # the slices that still do not finish UNJUDGED (counted, reported; a tool error if they are many)
+                log("[tlc] %s: timeout after %ds, retrying in slices" % (stage, timeout))
+                r, unjudged = self._validate_sliced(stage, trace_path, len(recs), 40, module, cfg, env, workers,
+                                                    max(90, timeout // 12), heap, drop_slow=True)
         else:
-            per = (len(recs) + nshards - 1) // nshards
-            r = TlcResult()
-            r.ok = True
-            with open(trace_path) as f:
-                lines = [ln for ln in f if ln.strip()]
-            for k in range(nshards):
-                chunk = lines[k * per:(k + 1) * per]
-                if not chunk:
-                    continue
-                spath = "%s.shard%d" % (trace_path, k)
-                with open(spath, "w") as f:
-                    f.writelines(chunk)
-                e = {"VH_TRACE": spath}
-                if env:
-                    e.update(env)
-                rk = run_tlc(module, cfg, env=e, workers=workers, timeout=timeout, heap=heap,
-                             metadir=os.path.join(self.workdir, "md-%s-%d" % (stage, k)))
-                os.remove(spath)
-                r.cmd = rk.cmd
-                r.wall += rk.wall
-                r.distinct += rk.distinct
-                r.generated += rk.generated
-                r.viols += [(idx + k * per, names) for idx, names in rk.viols]
-                if not rk.ok:
-                    r.ok = False
-                    r.error = rk.error
-                    break
-            self.cmds.append("VH_TRACE=<%d shards of %s> %s" % (nshards, trace_path, r.cmd))
+            r, _ = self._validate_sliced(stage, trace_path, len(recs), nshards, module, cfg, env, workers, timeout, heap,
+                                         drop_slow=False)
+            if not r.ok and r.error.startswith("timeout"):
+                log("[tlc] %s: timeout after %ds, retrying in finer slices" % (stage, timeout))
+                r, unjudged = self._validate_sliced(stage, trace_path, len(recs), max(40, nshards * 10), module, cfg, env,
+                                                    workers, max(90, timeout // 12), heap, drop_slow=True)
         self.states += r.distinct
         self.transitions += r.generated
         st = {"stage": stage, "module": module, "records": len(recs), "distinct_states": r.distinct,
               "states_generated": r.generated, "wall_s": round(r.wall, 1), "ok": r.ok}
+        if unjudged:
+            st["unjudged_records"] = unjudged
         self.stages.append(st)
         log("[tlc] %s: %s %d records, %d distinct states, %d VIOL, %.1fs" %
             (stage, "ok" if r.ok else "FAILED", len(recs), r.distinct, len(r.viols), r.wall))
         if not r.ok:
             self.tool_errors.append("stage %s: TLC did not complete: %s" % (stage, r.error[:2000]))
             return r
-        self.events += len(recs)
+        self.events += len(recs) - unjudged
         self.traces += 1
         for rec in recs:
             key = hashlib.md5(json.dumps(rec, sort_keys=True).encode()).digest()
